@@ -186,6 +186,14 @@ def steps(W):
                     nf.insert(pos, {"name": "addedb", "type": "bytes", "default": "ÿ"})
                     emit("add-bytes-field-with-default", path, dict(node, fields=nf))
                     nf = copy.deepcopy(fs)
+                    nf.insert(pos, {"name": "addedb0", "type": "bytes", "default": ""})
+                    nf.insert(pos, {"name": "addedl", "type": {"type": "array", "items": "string"}, "default": []})
+                    nf.insert(pos, {"name": "addedm", "type": {"type": "map", "values": "int"}, "default": {}})
+                    nf.insert(pos, {"name": "addedz", "type": "int", "default": 0})
+                    nf.insert(pos, {"name": "addedf", "type": "boolean", "default": False})
+                    nf.insert(pos, {"name": "addedn", "type": ["null", "int"], "default": None})
+                    emit("add-fields-with-falsy-defaults", path, dict(node, fields=nf))
+                    nf = copy.deepcopy(fs)
                     nf.insert(pos, {"name": "addedr", "type": {"type": "record", "name": "AddedRec", "fields": [{"name": "q", "type": "long", "default": 1}]}, "default": {"q": 5}})
                     emit("add-record-field-with-default", path, dict(node, fields=nf))
             if t in ("record", "enum", "fixed"):
@@ -232,6 +240,18 @@ def units(tier):
     return list(range(len(writer_schemas(tier))))
 
 
+def _scribble(v):
+    """Mutate every container inside a returned value."""
+    if isinstance(v, dict):
+        for x in list(v.values()):
+            _scribble(x)
+        v["__scribble__"] = 1
+    elif isinstance(v, list):
+        for x in v:
+            _scribble(x)
+        v.append("__scribble__")
+
+
 def read_both(fa, W, R, payload, value_datum):
     from fastavro._read_common import SchemaResolutionError
 
@@ -250,10 +270,15 @@ def read_both(fa, W, R, payload, value_datum):
                 got = got[0] if len(got) == 1 else ("<records>", got)
             else:
                 fo = io.BytesIO()
-                fa.writer(fo, copy.deepcopy(W), [copy.deepcopy(value_datum)], sync_marker=b"R" * 16)
+                fa.writer(fo, copy.deepcopy(W), [copy.deepcopy(value_datum), copy.deepcopy(value_datum)], sync_marker=b"R" * 16)
                 fo.seek(0)
-                got = list(fa.reader(fo, reader_schema=copy.deepcopy(R)))
-                got = got[0] if len(got) == 1 else ("<records>", got)
+                rd = fa.reader(fo, reader_schema=copy.deepcopy(R))
+                first = next(rd)
+                keep = copy.deepcopy(first)
+                _scribble(first)  # the caller owns what it was given: changing it must not change later records
+                second = next(rd)
+                rest = list(rd)
+                got = keep if (not rest and same(keep, second)) else ("<records differ or extra>", keep, second, rest)
             results.append((how, "value", got))
         except SchemaResolutionError as e:
             results.append((how, "resolution-error", str(e)[:150]))
